@@ -118,6 +118,23 @@ async def scenario(loop, plan, r, out):
             if not await step("use", use):
                 return
         bg_tasks = []
+        if plan.get("prefail"):
+            # the NCP stops answering for a while: the host uses up its retry budget and declares the link failed by
+            # itself (no ERROR frame is involved).  The later reset is exactly how an application recovers from that, so
+            # everything after it must work as after any other reset.  The deliberate silence is not a line fault.
+            hh, hn = len(stack.line.h2n.hits), len(stack.line.n2h.hits)
+            stack.line.dead = True
+            try:
+                await asyncio.wait_for(ezsp.nop(), 60)
+                out["prefail_outcome"] = "ok"
+            except asyncio.CancelledError:
+                raise
+            except BaseException as ex:
+                out["prefail_outcome"] = type(ex).__name__
+            await asyncio.sleep(10)
+            stack.line.dead = False
+            del stack.line.h2n.hits[hh:]
+            del stack.line.n2h.hits[hn:]
         if plan["second"] == "reset":
             if not await step("reset", lambda: ezsp.reset()):
                 return
@@ -248,6 +265,10 @@ def check(plan) -> Result:
     r.cls(vtag, "path:" + plan["path"], "second:" + plan["second"], "spont:" + plan.get("spont", "absent"))
     if plan.get("announce") is not None:
         r.cls("reboot-announced-before-handshake")
+    if "prefail_outcome" in out:
+        r.cls("host-gave-up-on-a-silent-ncp-before-the-second-reset")
+        if out["prefail_outcome"] == "ok":
+            r.bad("C09:harness:command-succeeded-on-dead-line", f"plan {plan}")
     if plan.get("bg") and "bg_refused_at_once" in out:
         r.cls("commands-issued-while-stopped")
         if not out["bg_refused_at_once"]:
@@ -286,6 +307,8 @@ def plans(draw):
     else:
         plan["use"] = draw(st.booleans())
         plan["bg"] = draw(st.integers(0, 3)) == 0
+        if draw(st.integers(0, 3)) == 0:
+            plan["prefail"] = True
         if path == "serial" and draw(st.integers(0, 3)) == 0:
             plan["announce"] = draw(st.sampled_from([0x00, 0x01, 0x02, 0x03, 0x06, 0x09]))
         if plan["second"] == "reset":
@@ -314,6 +337,7 @@ def enum_plans(quick):
                         p["spont"] = sp
                     out.append(p)
                     out.append(dict(p, use=True))
+                    out.append(dict(p, prefail=True))
                     if second == "startup":
                         out.append(dict(p, bg=True))
                     if path == "serial":
